@@ -80,7 +80,10 @@ def enc_recipe(r):
         if "metadata" in r:
             out["metadata"] = enc(r["metadata"])
         return out
-    return {"k": r["k"], "args": [[n, enc(v)] for n, v in r["args"].items()]}
+    out = {"k": r["k"], "args": [[n, enc(v)] for n, v in r["args"].items()]}
+    if "set_types" in r:
+        out["set_types"] = r["set_types"]
+    return out
 
 
 def dec_recipe(j):
@@ -90,7 +93,10 @@ def dec_recipe(j):
         if "metadata" in j:
             out["metadata"] = dec(j["metadata"])
         return out
-    return {"k": j["k"], "args": {n: dec(v) for n, v in j["args"]}}
+    out = {"k": j["k"], "args": {n: dec(v) for n, v in j["args"]}}
+    if "set_types" in j:
+        out["set_types"] = j["set_types"]
+    return out
 
 
 def build(r):
@@ -103,4 +109,23 @@ def build(r):
         return nir.NIRGraph(nodes={n: build(x) for n, x in r["nodes"].items()},
                             edges=[tuple(e) for e in r["edges"]], **kw)
     cls = getattr(nir, r["k"])
-    return cls(**r["args"])
+    node = cls(**r["args"])
+    if "set_types" in r:
+        node.input_type = mat_ty(r["set_types"]["in"])
+        node.output_type = mat_ty(r["set_types"]["out"])
+    return node
+
+
+def mat_ty(t):
+    """JSON type description -> Python value: None | {key: None | ndarray | tuple}"""
+    if t is None:
+        return None
+    out = {}
+    for k, v in t:
+        if v is None:
+            out[k] = None
+        elif isinstance(v, dict):
+            out[k] = tuple(v["seq"])
+        else:
+            out[k] = np.array(v, dtype=np.int64)
+    return out
